@@ -21,10 +21,12 @@ def scenarios(tier, seed):
             disc = simruns.is_discrete(sim)
             for s in seeds:
                 tau, gamma = ((1.0, 1.0), (3.0, 0.5), (0.5, 2.0))[s % 3]
+                if s == 3 and kind == "SIR" and not disc:
+                    gamma = 0.0          # nobody ever recovers: recovery "at infinity" must not show up anywhere
                 ik = {"initial_infecteds": [1, n] if (s % 2 == 0 and n > 1) else [1]}
                 if n >= 4 and simruns.supports_R0(sim) and s % 2 == 0:
                     ik["initial_recovereds"] = [2]
-                tmin = 0 if s % 2 else 2
+                tmin = (0 if s % 2 else 2) if gi % 3 else (-3 if disc else -2.5)     # also negative start times (then 0 is an ordinary query time)
                 if disc:
                     tmax = None if kind == "SIR" else tmin + 4
                 else:
@@ -32,25 +34,47 @@ def scenarios(tier, seed):
                 out.append({"sim": sim, "n": n, "edges": edges, "weights": None, "tau": tau, "gamma": gamma,
                             "p": 1.0 if disc else 0.5, "tmin": tmin, "tmax": tmax, "init_kw": ik,
                             "weighted": simruns.supports_weights(sim) and s % 2 == 0, "seed": s * 15485863 + gi})
+    # table-driven event-driven SIR with ties, zero and infinite values and horizons that coincide with event times
+    from harness import event_scn
+    for k, es in enumerate(event_scn.sir_scenarios(seed + 10, 400 if tier == "quick" else 4000, exhaustive2=False)):
+        out.append({"sim": "fast_nonMarkov_SIR(table rules)", "ties": es, "n": es["n"], "init_kw": {"initial_recovereds": 1} if "R" in es["init"] else {},
+                    "tmin": es["tmin"], "seed": k})
     return out
+
+
+def _call_ties(EoN, es, full):
+    from harness import event_scn, event_sir
+    G = event_sir.build(es)
+    nodes = list(range(1, es["n"] + 1))
+    tt, rt, jt = event_sir.make_fxns(es)
+    kw = dict(initial_infecteds=[u for u in nodes if es["init"][u - 1] == "I"], tmin=event_scn.fl(es["tmin"]), tmax=event_scn.fl(es["tmax"]))
+    R0 = [u for u in nodes if es["init"][u - 1] == "R"]
+    if R0:
+        kw["initial_recovereds"] = R0
+    return G, EoN.fast_nonMarkov_SIR(G, trans_time_fxn=tt, rec_time_fxn=rt, return_full_data=full, **kw)
 
 
 def _record(i):
     sc = _G["scn"][i]
     EoN = _G["EoN"]
     sim = sc["sim"]
-    kind = simruns.kind_of(sim)
+    kind = "SIR" if "ties" in sc else simruns.kind_of(sim)
     w = None
-    if sc["weighted"]:
+    if sc.get("weighted"):
         w = {"g": [1.0 + (u % 3) * 0.5 for u in range(sc["n"])], "w": [0.5 + (k % 4) * 0.5 for k in range(len(sc["edges"]))]}
-    G = simruns.make_graph(sc["n"], sc["edges"], w)
-    nodes = sorted(G.nodes())
     sts = ["S", "I", "R"] if kind == "SIR" else ["S", "I"]
     try:
-        simruns.seed_all(sc["seed"])
-        arrs = [list(map(float, a)) for a in simruns.call_sim(EoN, sim, G, sc, False)]
-        simruns.seed_all(sc["seed"])
-        obj = simruns.call_sim(EoN, sim, G, sc, True)
+        if "ties" in sc:
+            G, r0 = _call_ties(EoN, sc["ties"], False)
+            arrs = [list(map(float, a)) for a in r0]
+            G, obj = _call_ties(EoN, sc["ties"], True)
+        else:
+            G = simruns.make_graph(sc["n"], sc["edges"], w)
+            simruns.seed_all(sc["seed"])
+            arrs = [list(map(float, a)) for a in simruns.call_sim(EoN, sim, G, sc, False)]
+            simruns.seed_all(sc["seed"])
+            obj = simruns.call_sim(EoN, sim, G, sc, True)
+        nodes = sorted(G.nodes())
         hist = {u: ([float(t) for t in obj.node_history(u)[0]], list(obj.node_history(u)[1])) for u in nodes}
         summ = obj.summary()
         acc_t = [float(x) for x in obj.t()]
@@ -61,10 +85,19 @@ def _record(i):
         sub = sorted(rng.sample(nodes, max(1, len(nodes) // 2)))
         ssub = obj.summary(nodelist=sub)
         # query times: every event time, midpoints, tmin, beyond the end
+        import math
+        if any(math.isinf(t) for u in nodes for t in hist[u][0]) or any(math.isinf(t) for t in arrs[0]):
+            return {"error": "an event at infinite time is reported (histories %r, times %r)" % ([hist[u] for u in nodes][:3], arrs[0][-3:]),
+                    "etype": "event-at-infinite-time"}
         times = sorted({t for u in nodes for t in hist[u][0]} | {float(sc["tmin"])} | set(arrs[0]))
         enc = {t: 2 * (k + 1) for k, t in enumerate(times)}
         qs = []
         qtimes = [(t, enc[t]) for t in times] + [((a + b) / 2.0, enc[a] + 1) for a, b in zip(times, times[1:])] + [(times[-1] + 1.0, enc[times[-1]] + 1)]
+        if times[0] < 0:
+            # the query time 0 (int and float), wherever it falls
+            below = [t for t in times if t <= 0]
+            code0 = enc[below[-1]] + (0 if below[-1] == 0 else 1)
+            qtimes = [(0, code0), (0.0, code0)] + qtimes
         qn = nodes if len(nodes) <= 4 else rng.sample(nodes, 4)
         for (t, code) in qtimes[:40]:
             if t < sc["tmin"]:
